@@ -29,7 +29,10 @@ META = {
             "of the real parse_and_optimize are compared with the extracted model (flags chosen by probing the tree) on a near-miss stream (left "
             "recursion through every operator, directly and through 2-3 rules of every type; every nullable / non-failing body under every "
             "repetition, as WHITESPACE / COMMENT, as alternative; repetitions away from the left edge whose body leads back to the enclosing rule "
-            "through references while that rule can match empty through a later alternative / ? / look-ahead; name and count errors; "
+            "through references while that rule can match empty through a later alternative / ? / look-ahead; sequences of two or three "
+            "non-progressing elements of different kinds - look-aheads, empty literals of both kinds, SOI / EOI, PUSH(\"\"), ?, *, rules, with "
+            "grammar-extras also tagged in every position - as repetition body, WHITESPACE / COMMENT body and in front of a recursive call; "
+            "name and count errors; "
             "implicit-skip recursion) and on random recursive grammars; when the verdicts differ, the differing grammars are varied (escalated "
             "search, see coverage.escalated_search) and the accepted variants are run as well; "
             "every accepted grammar without stack built-ins is run by the real pest_vm from every rule on all inputs up to a length bound in a child "
@@ -131,6 +134,9 @@ def escalate(differing, pipe, seed, maxlen):
                 picked.append(groups[key].pop(0))
     out = {"starting_points": len(picked), "kinds_of_difference": len(groups), "variants_judged": 0, "variants_accepted": 0, "vm_runs": 0,
            "nonterminating_observed": 0, "wellformed_rejected": 0, "mismatches": [], "classes": {},
+           "variants": "the pieces of each differing grammar on their own (repetitions, WHITESPACE / COMMENT bodies, tagged expressions, prefixes of "
+                       "references; references unfolded 0-2 levels) as repetition body / WHITESPACE / COMMENT / prefix of a recursive call, then "
+                       "single changes, the directed product and random chains of changes of the whole grammar; both feature sets",
            "inputs": "all strings over {x, y, space} up to length %d plus the strings up to length 3 that use a letter of the grammar's own "
                      "literals / ranges / character classes" % maxlen}
     os.makedirs(BUILD, exist_ok=True)
@@ -253,7 +259,8 @@ def run(tier, seed, replay=None):
 
     # Escalated search.  The verdict of the real front end differs from the model of validator.rs: the property itself is about behaviour
     # (an accepted grammar terminates on every input; a well-formed grammar is accepted), so the differing grammars are taken as starting
-    # points, varied (every single change, the directed product "repetition operator x way back to the enclosing rule x something
+    # points, taken apart (every repetition, WHITESPACE / COMMENT body, tagged expression and prefix of a reference on its own in a one-rule
+    # grammar, references replaced by the rule bodies 0-2 levels deep), varied (every single change, the directed product "repetition operator x way back to the enclosing rule x something
     # consuming in front x enclosing rule nullable through a later alternative / ? / look-ahead", random chains of changes), judged by
     # the real front end again and every accepted variant is run by the real pest_vm in child processes on inputs over x, y, space and
     # the letters of its own literals.  A variant that does not terminate (or a well-formed one that is rejected) is the failing input.
